@@ -781,3 +781,52 @@ Proof.
   intros allowed objs fs l k H. destruct (locate_objs_ok_shape _ _ _ _ H) as [p Hp].
   exists p. rewrite Hp. apply sort_desc_stable.
 Qed.
+
+(* ================================================================== the order is determined
+   Any list that is (1) a permutation of the selected objects, (2) non-increasing in Initial Date and
+   (3) keeps the store order among equal dates IS the specification's list: `sort_desc` in
+   `locate_spec` is only one way to write it. *)
+Lemma sorted_perm_stable_unique : forall l1 l2,
+  Permutation l1 l2 -> StronglySorted desc l1 -> StronglySorted desc l2 ->
+  (forall k, filter (fun o => o_idate o =? k) l1 = filter (fun o => o_idate o =? k) l2) ->
+  l1 = l2.
+Proof.
+  induction l1 as [|x l1 IH]; intros l2 P S1 S2 F.
+  - apply Permutation_nil in P. subst. reflexivity.
+  - destruct l2 as [|y l2]; [apply Permutation_sym, Permutation_nil in P; discriminate|].
+    inversion S1 as [|? ? S1' A1]; subst. inversion S2 as [|? ? S2' A2]; subst.
+    assert (Kxy : o_idate x = o_idate y).
+    { assert (Hy : In y (x :: l1)) by (apply (Permutation_in _ (Permutation_sym P)); left; reflexivity).
+      assert (Hx : In x (y :: l2)) by (apply (Permutation_in _ P); left; reflexivity).
+      unfold desc in *. rewrite Forall_forall in A1, A2.
+      destruct Hy as [->|Hy]; [reflexivity|]. destruct Hx as [<-|Hx]; [reflexivity|].
+      specialize (A1 _ Hy). specialize (A2 _ Hx). lia. }
+    pose proof (F (o_idate x)) as Fx. simpl in Fx.
+    rewrite Z.eqb_refl in Fx. rewrite <- Kxy, Z.eqb_refl in Fx. inversion Fx; subst y.
+    f_equal. apply IH; auto.
+    + eapply Permutation_cons_inv; exact P.
+    + intros k. specialize (F k). simpl in F. destruct (o_idate x =? k); [inversion F; reflexivity | exact F].
+Qed.
+
+Lemma newest_first_unique_lemma : forall allowed objs fs l,
+  Permutation l (filter (selected allowed fs) objs) ->
+  StronglySorted desc l ->
+  (forall k, filter (fun o => o_idate o =? k) l = filter (fun o => o_idate o =? k) (filter (selected allowed fs) objs)) ->
+  l = spec_objs allowed objs fs.
+Proof.
+  intros allowed objs fs l P S F. unfold spec_objs. apply sorted_perm_stable_unique.
+  - eapply Permutation_trans; [exact P | apply Permutation_sym, sort_desc_perm].
+  - exact S.
+  - apply sort_desc_strongly_sorted.
+  - intros k. rewrite sort_desc_stable. apply F.
+Qed.
+
+Lemma newest_first_exists_lemma : forall allowed objs fs,
+  let l := spec_objs allowed objs fs in
+  Permutation l (filter (selected allowed fs) objs) /\
+  StronglySorted desc l /\
+  (forall k, filter (fun o => o_idate o =? k) l = filter (fun o => o_idate o =? k) (filter (selected allowed fs) objs)).
+Proof.
+  intros. split; [apply spec_objs_perm|]. split; [apply spec_objs_sorted|].
+  intros k. apply sort_desc_stable.
+Qed.
